@@ -20,6 +20,7 @@ func (cc *perIPConnCounter) Register(ip uint32) int {
 	}
 	n := cc.m[ip] + 1
 	cc.m[ip] = n
+	vhook("pip.reg", cc, nil, int(ip), n)
 	cc.lock.Unlock()
 	return n
 }
@@ -34,8 +35,10 @@ func (cc *perIPConnCounter) Unregister(ip uint32) {
 	// Drop the entry, otherwise the map keeps a key per distinct client IP forever.
 	if n := cc.m[ip] - 1; n > 0 {
 		cc.m[ip] = n
+		vhook("pip.unreg", cc, nil, int(ip), n)
 	} else {
 		delete(cc.m, ip)
+		vhook("pip.unreg", cc, nil, int(ip), n)
 	}
 }
 
